@@ -28,7 +28,7 @@ def main(argv=None):
         print(f"machinery error: no driver for {prop}", file=sys.stderr)
         return 2
     core.import_simfile()
-    signal.signal(signal.SIGALRM, core._on_alarm)
+    signal.signal(signal.SIGPROF, core._on_alarm)
     if args.replay:
         return replay(driver, prop, args.replay)
     run = core.Run(prop, tier, seed, level=getattr(driver, "LEVEL", "model_checking"))
@@ -49,13 +49,13 @@ def replay(driver, prop, path):
     case = rec["case"]
     obs = []
     for _ in range(2):
-        signal.setitimer(signal.ITIMER_REAL, core.CASE_TIMEOUT_S)
+        signal.setitimer(signal.ITIMER_PROF, core.CASE_TIMEOUT_S)
         try:
             failures = driver.check_case(case)
         except core.WatchdogTimeout:
             failures = [{"clause": "watchdog: case did not return"}]
         finally:
-            signal.setitimer(signal.ITIMER_REAL, 0)
+            signal.setitimer(signal.ITIMER_PROF, 0)
         obs.append(core.jsonable(failures))
     if obs[0] != obs[1]:
         print("machinery error: replay is not deterministic", file=sys.stderr)
